@@ -29,6 +29,22 @@ loop link, link to the second filesystem} x {plain, IGNOREd, dot-named}, named s
 adjacent in the listing, and runs every ordered pair under BOTH listing orders (sorted and
 reversed scandir enumeration) whatever VERIF_SEED is: pruning of one entry must not depend on
 what stands next to it.
+
+Family R ("root spellings") re-runs small trees of families L, S and X with the tree root NAMED
+differently: the top-level Manifest path handed to ManifestRecursiveLoader / the path argument
+of the CLI is relative to a cwd inside the tree ('Manifest', './Manifest', '../Manifest', no
+argument at all, '.', '..', '../sib'), contains doubled and trailing slashes, goes through '..'
+('sub/../Manifest', 'a/b/../../Manifest', 'c/../..' from the parent of c: what the CLI builds
+when run on a sub-directory) or through a symlinked prefix directory.  The oracle is the SAME
+reference walk: the verdict is a function of the tree, not of the spelling of its root.
+
+Family U ("sub-Manifests on the way") extends the foreign-device family: a valid sub-Manifest
+(plain / gzip; not yet registered, or registered by a MANIFEST entry) sits in a directory walked
+before / after / above / beside the foreign object, for every walker that loads Manifests on its
+way, plus histories of TWO walks on ONE loader (scan / update / keep-going verify from any
+directory, then from the root).  Every walk is judged on its own: with crossing disallowed it
+must raise ManifestCrossDevice iff the reference walk from its start meets a non-IGNOREd foreign
+object, whatever Manifests were loaded before.
 """
 
 import contextlib
@@ -43,6 +59,7 @@ import tempfile
 import gemato.recursiveloader as grl
 
 from gverif import gem, refmanifest as rm
+from gverif.treemodel import compress, decompress
 from gverif.common import fresh_root, rot
 from gverif.evidence import Stats
 
@@ -84,9 +101,35 @@ RULE = (
     'the entries are named "+p"/".p" and ".q"/"0q" so that they sort next to each other before every other '
     'directory: each entry of a pair is listed first once, nothing between them, checked per case) x '
     'allow_xdev {on; off too when a foreign link is in the pair} x the five walkers (create: pairs without '
-    'IGNORE line).  A case = (family, shape, link set, IGNORE variant, start, foreign placement, pair + '
-    'holder + loop target + listing order, allow_xdev, walker); distinct by construction (finish() checks '
-    'digests == executions and the family-P execution count against a re-enumeration).  Non-trivial = at '
+    'IGNORE line).  Family R (root spellings; n <= 2 quick / <= 3 thorough): part L = ALL link sets, start = tree '
+    'root, IGNORE {none, on each link, on each directory at or above a link holder} x walkers {the five + `gemato '
+    'verify`, `gemato verify -k`, `gemato update`}; part S = the same started at every non-root directory (library '
+    'sub-path walkers + the three CLI commands run on the sub-directory); part X = foreign object (quick: kinds '
+    'dir, file, back; thorough: all six) held by every directory, no in-forest link, IGNORE {none, on x, on each '
+    'directory at or above the holder} x allow_xdev {on, off} x the eight walkers, and the library walkers started '
+    'at the foreign directory; each x EVERY non-canonical spelling of the tree root (R = root as a string, top-level '
+    'Manifest = R/Manifest, CLI argument = R[/start]): "bare" cwd = root, "Manifest" / CLI without path argument (or '
+    'the bare relative sub-path); "cwd:c" for every directory c: cwd = c, R = relpath(root, c) = ".", "..", "../.."; '
+    '"slash": a doubled slash inside the prefix plus a trailing slash; "dd:c" for every non-root c: absolute through '
+    '"..", R = c/.. x depth(c); "ddrel:c": the same relative to cwd = parent of c ("c/..", "c/../.."); "ddbase": '
+    'R = root/../basename(root); "sym": R = a symlink to the root standing in another directory; "rel:c" (the three '
+    'CLI commands, sub-path starts): cwd = c, argument = relpath(start, c) (".", "..", "../sib", "x/y"); the canonical '
+    'spelling is added for the CLI walkers that parts L and S do not otherwise run.  For n = 3 quick / n = 4 '
+    'thorough only the chain shape, link sets with <= 1 (quick) / <= 2 (thorough) links and only the spellings '
+    'through a directory at depth n-1 (they do not exist in smaller trees).  Oracle: the unchanged reference walk '
+    '(same verdict as under the canonical spelling).  Family U (sub-Manifests on the way; n = 2..3 quick / 2..4 '
+    'thorough, no in-forest link, start = tree root): foreign {directory with a file, regular file} held by every '
+    'directory x one VALID sub-Manifest in every non-root directory (same directory, above, below, unrelated) x '
+    '{plain, gzip} x listing order {sorted, reversed} (both always) x IGNORE {none, on x} x allow_xdev {off, on} x '
+    '(walker, sub-Manifest state) in {update, `gemato update`, unregistered scan} x {unregistered, registered} + '
+    '`gemato create` (unregistered, no IGNORE) + {verify strict, verify keep-going, `gemato verify`} (registered); '
+    'plus, for n <= 3, allow_xdev off, no IGNORE, {unregistered, registered} (quick, n = 3: plain only), ALL '
+    'two-call histories on ONE loader: (op1 from every directory) ; (op2 from the tree root), op in {scan = '
+    'load_unregistered_manifests, update = update_entries_for_directory, verify = assert_directory_verifies with a '
+    'handler returning False}, nothing saved.  A case = (family, shape, link set, IGNORE variant, start, foreign '
+    'placement, pair + holder + loop target + listing order, allow_xdev, walker, root spelling, sub-Manifest '
+    'placement/compression/state, history); distinct by construction (finish() checks digests == executions and the '
+    'execution counts of families P, R and U against a re-enumeration).  Non-trivial = at '
     'least one directory symlink or foreign object is present and the reference verdict is definite.')
 ASSUMPTIONS = [
     'ref_walk() is an independent restatement of the statement (DFS, identities of the directories on the '
@@ -115,8 +158,22 @@ ASSUMPTIONS = [
     'whose stat() rewrites st_ino of that one foreign directory; a self-check counts the rewrites',
     'small scope: <= 5 directories, <= 1 link per directory (family P: exactly two extra entries in ONE '
     'directory and no other link), one foreign object per case (family P: up to two links to the same '
-    'foreign directory), no sub-Manifests, hidden objects only as a hidden link or a family-P dot-directory, '
-    'scandir order fixed by the harness (sorted; reversed for odd VERIF_SEED; family P: both orders)',
+    'foreign directory), sub-Manifests only in family U (exactly one, valid, in a real non-root directory of the '
+    'home device, never inside the foreign directory), hidden objects only as a hidden link or a family-P '
+    'dot-directory, scandir order fixed by the harness (sorted; reversed for odd VERIF_SEED; families P, U: both)',
+    'family R: every spelling resolves (through the kernel) to the same directory as the canonical root; "..": only '
+    'behind REAL directories of the tree or the scratch, the symlinked prefix is one link in the scratch directory; '
+    'spellings are not crossed with families P and U, with hidden links or alias IGNOREs, and above the stated n '
+    'only the depth-(n-1) spellings run; the cwd of the worker process is changed for the one execution and restored',
+    'family U: the sub-Manifest lists exactly the files of its sub-tree that the reference reaches (device crossing '
+    'allowed, current IGNOREs), the top-level Manifest the rest; IGNORE lines live in the top-level Manifest.  After a '
+    'successful update/create the UNION of the DATA/IGNORE entries of both Manifests (paths re-based to the tree '
+    'root) must equal the reached files and a fresh loader must verify the tree; how the sub-Manifest gets '
+    'registered and what the scan returns is not judged.  Histories: every call is judged by the reference walk '
+    'from its own start; return values are judged only in the registered state (keep-going verify must not return '
+    'False).  DONT_CARE: a call after a FAILED earlier call that raises something else than the cross-device error '
+    '(a loader that refuses further work); a keep-going verify meeting a foreign regular file that no loaded '
+    'Manifest lists (unregistered state): stray-file mismatch vs. cross-device error, no precedence stated',
     'family P observes listing-order dependence only through os.scandir order (what os.walk hands to the '
     'walkers as dirnames); three or more adjacent prunable entries are not enumerated',
 ]
@@ -136,7 +193,24 @@ WALKERS_S = ('verify_strict', 'verify_keepgoing', 'unregistered', 'update')
 WALKERS_X = WALKERS_L + ('cli_verify', 'cli_verify_k', 'cli_update')
 WALKERS_XS = ('verify_strict', 'verify_keepgoing', 'unregistered', 'update')    # library only: `gemato verify
 # ROOT/p/x` looks for the top-level Manifest above the link TARGET (C15's subject), not above ROOT/p
-MAX_N = {'quick': {'L': 4, 'S': 3, 'X': 3, 'P': 3}, 'thorough': {'L': 5, 'S': 4, 'X': 4, 'P': 4}}
+MAX_N = {'quick': {'L': 4, 'S': 3, 'X': 3, 'P': 3, 'R': 2, 'RX': 2, 'U': 3, 'UH': 3},
+         'thorough': {'L': 5, 'S': 4, 'X': 4, 'P': 4, 'R': 3, 'RX': 3, 'U': 4, 'UH': 3}}
+# R = trees run under every root spelling (n = R+1: only the spellings through a directory at depth n-1);
+# RX = the same for foreign placements; U = sub-Manifest family, UH = its two-call histories
+RX_KINDS = {'quick': ('dir', 'file', 'back'), 'thorough': KINDS}     # family R, foreign placements
+DEEP_LINKS = {'quick': 1, 'thorough': 2}       # family R, n = R+1: link sets with at most that many links
+CLI3 = ('cli_verify', 'cli_verify_k', 'cli_update')
+CLI_WALKERS = CLI3 + ('create',)
+WALKERS_RL = WALKERS_L + CLI3
+WALKERS_RS = WALKERS_S + CLI3
+SPELL_CLASSES = ('bare', 'cwd', 'slash', 'dd', 'ddrel', 'ddbase', 'sym', 'rel')
+SUBM_COMPS = (None, 'gz')
+U_KINDS = ('dir', 'file')
+U_SINGLES = (('update', False), ('update', True), ('cli_update', False), ('cli_update', True),
+             ('unregistered', False), ('unregistered', True), ('create', False),
+             ('verify_strict', True), ('verify_keepgoing', True), ('cli_verify', True))   # (walker, sub-Manifest registered)
+HIST_OPS = ('scan', 'update', 'verify')
+SUBM_NAMES = tuple(TOP + ('.' + c if c else '') for c in SUBM_COMPS)
 
 # family P: item = prune prefix ('' plain | 'I' IGNOREd | 'H' dot-named) + kind letter
 #   L link back to an ancestor (loop)   S link to a sibling directory (no loop)
@@ -376,8 +450,9 @@ class Model:
     Identities: real directory i -> i; foreign directories -> 'X', 'XS'; the real directory
     of pair slot s -> ('P', s)."""
 
-    def __init__(self, parents, links, names, hidden=(), foreign=None, pair=None):
+    def __init__(self, parents, links, names, hidden=(), foreign=None, pair=None, subm=None):
         self.n = len(parents)
+        self.subm = subm            # family U: {'at': node != 0, 'comp': None|'gz', 'reg': bool}
         self.parents = tuple(parents)
         self.links = tuple(links)
         self.names = list(names)
@@ -391,6 +466,19 @@ class Model:
 
     def lname(self, i):
         return ('.k%d' if i in self.hidden else 'k%d') % i
+
+    def depth(self, i):
+        d = 0
+        while i != 0:
+            i = self.parents[i]
+            d += 1
+        return d
+
+    def subm_name(self):
+        return TOP + ('.' + self.subm['comp'] if self.subm['comp'] else '')
+
+    def subm_path(self):
+        return _j(self.rpath[self.subm['at']], self.subm_name())
 
     def link_path(self, i):
         return _j(self.rpath[i], self.lname(i))
@@ -463,6 +551,8 @@ class Model:
                 out.extend((name, 'dir', tgt) for _s, _it, name, tgt in self.pair_entries())
             if node == 0:
                 out.append((TOP, 'manifest', None))
+            if self.subm is not None and self.subm['at'] == node:
+                out.append((self.subm_name(), 'subm', None))
             return out
         if node == 'X':
             xk = self.xkind()
@@ -495,11 +585,13 @@ class Model:
                     'D': 'dir{f up->' + ('r' if lt == 0 else self.rpath[lt]) + '}', 'X': 'link->OTHER-FS/D'}
             s += '  pair in ' + (self.rpath[self.pair['at']] or 'r') + ': ' + ', '.join(
                 f'{name!r}={pair_prune(it)} {what[pair_kind(it)]}' for _s, it, name, _t in self.pair_entries())
+        if self.subm:
+            s += f'  {"registered" if self.subm["reg"] else "UNREGISTERED"} valid sub-Manifest {self.subm_path()}'
         return s
 
 
 class Ref:
-    __slots__ = ('visits', 'loops', 'xhits', 'xhit_dirs', 'files', 'alias_manifests')
+    __slots__ = ('visits', 'loops', 'xhits', 'xhit_dirs', 'files', 'alias_manifests', 'subms')
 
     def __init__(self):
         self.visits = []            # (relpath, node) of directories walked
@@ -508,10 +600,11 @@ class Ref:
         self.xhit_dirs = []
         self.files = {}             # relpath -> content
         self.alias_manifests = []   # top-level Manifest seen under another path
+        self.subms = []             # relpaths of sub-Manifest files met (family U); never DATA files
 
     def key(self):
         return (sorted(r for r, _ in self.visits), sorted(r for r, _ in self.loops),
-                sorted(self.xhits), sorted(self.files), sorted(self.alias_manifests))
+                sorted(self.xhits), sorted(self.files), sorted(self.alias_manifests), sorted(self.subms))
 
 
 def ref_walk(model, start, ignores, allow_xdev):
@@ -546,6 +639,8 @@ def ref_walk(model, start, ignores, allow_xdev):
             elif kind == 'manifest':
                 if cr != TOP:
                     r.alias_manifests.append(cr)
+            elif kind == 'subm':
+                r.subms.append(cr)
 
     visit(start, model.path_of(start), ())
     return r
@@ -579,8 +674,12 @@ def disk_walk(root, start_rel, ignores, allow_xdev):
             else:
                 if cr == TOP:
                     continue
-                if name == TOP and os.path.samefile(p, os.path.join(root, TOP)):
+                if name == TOP and os.path.exists(os.path.join(root, TOP)) \
+                        and os.path.samefile(p, os.path.join(root, TOP)):
                     r.alias_manifests.append(cr)
+                    continue
+                if name in SUBM_NAMES:
+                    r.subms.append(cr)
                     continue
                 if os.stat(p).st_dev != home and not allow_xdev:
                     r.xhits.append(cr)
@@ -610,6 +709,38 @@ class Disk:
                 f.write(m.content(i))
         self.cur = {}            # symlink path -> target
         self.curdirs = {}        # extra real directory (family P) -> content of its file "f"
+        self.subms = set()       # directories that may hold a sub-Manifest file (family U)
+        self.scratch = scratch
+        self.link = os.path.join(scratch, 'lnk')     # family R: symlinked prefix directory  lnk -> t
+        if os.path.lexists(self.link):
+            os.unlink(self.link)
+
+    def prefix_link(self):
+        if not os.path.lexists(self.link):
+            os.symlink(os.path.basename(self.root), self.link)
+        return self.link
+
+    def write_subm(self, rel, data):
+        path = os.path.join(self.root, rel)
+        self.subms.add(os.path.dirname(path))
+        with open(path, 'wb') as f:
+            f.write(data)
+
+    def read_subm(self, rel):
+        try:
+            with open(os.path.join(self.root, rel), 'rb') as f:
+                return f.read()
+        except FileNotFoundError:
+            return None
+
+    def remove_subms(self):
+        for d in self.subms:
+            for nm in SUBM_NAMES:
+                try:
+                    os.unlink(os.path.join(d, nm))
+                except FileNotFoundError:
+                    pass
+        self.subms = set()
 
     def _want_dirs(self, model):
         return {os.path.join(self.abs[model.pair['at']], name): PAIR_CONTENT[slot]
@@ -644,6 +775,7 @@ class Disk:
         return want
 
     def apply(self, model):
+        self.remove_subms()
         want = self._want(model)
         wdirs = self._want_dirs(model)
         for p in [p for p, t in self.cur.items() if want.get(p) != t]:
@@ -675,6 +807,9 @@ class Disk:
             os.unlink(os.path.join(d, 'f'))
             os.rmdir(d)
         self.curdirs = {}
+        self.remove_subms()
+        if os.path.lexists(self.link):
+            os.unlink(self.link)
         self.remove_manifest()
 
     def write_manifest(self, text):
@@ -746,46 +881,159 @@ def _argv(cmd, allow_xdev, target):
         a += ['--hashes', ' '.join(HASHES)]
     if not allow_xdev:
         a.append('-x')
-    return a + [target]
+    return a + ([target] if target is not None else [])      # no path argument: the CLI's default, '.'
 
 
-def execute(walker, root, start_rel, allow_xdev, limit, reverse):
+class Spelled:
+    """One way of naming the tree root: ``top`` = path of the top-level Manifest handed to
+    ManifestRecursiveLoader, ``target`` = path argument of the CLI (None: none given), ``cwd`` =
+    working directory during the execution (None: unchanged, all paths absolute)."""
+    __slots__ = ('name', 'top', 'target', 'cwd')
+
+    def __init__(self, name, top, target, cwd):
+        self.name, self.top, self.target, self.cwd = name, top, target, cwd
+
+
+def spelled(spell, disk, model, start, start_rel):
+    """Root spellings (family R).  R = the tree root as a string ('' = the cwd itself):
+      abs      canonical absolute path (what every other family uses)
+      bare     cwd = root; 'Manifest' / CLI without path argument (or the bare relative sub-path)
+      cwd:c    cwd = real directory c; R = relpath(root, c): '.', '..', '../..'
+      slash    a doubled slash inside the prefix and a trailing slash: '/a//b/t/' + '/Manifest'
+      dd:c     absolute through '..': R = <c>/.. x depth(c)        ('sub/../Manifest', 'a/b/../../Manifest')
+      ddrel:c  the same relative to cwd = parent of c: 'c/..', 'c/../..'  (what the CLI run on c builds)
+      ddbase   R = root/../<basename of root>
+      sym      R = a symlink to the root in another directory (symlinked prefix)
+      rel:c    CLI only: cwd = c, path argument = relpath(start, c)       ('.', '..', '../sib', 'x/y')"""
+    root = disk.root
+    kind, _, arg = (spell or 'abs').partition(':')
+    c = int(arg) if arg else None
+    cwd = None
+    if kind == 'abs':
+        return Spelled('abs', os.path.join(root, TOP), os.path.join(root, start_rel) if start_rel else root, None)
+    if kind == 'rel':
+        cwd = disk.abs[c]
+        return Spelled(spell, None, os.path.relpath(disk.abs[start], cwd), cwd)
+    if kind == 'bare':
+        r, cwd = '', root
+    elif kind == 'cwd':
+        cwd = disk.abs[c]
+        r = os.path.relpath(root, cwd)
+    elif kind == 'slash':
+        i = root.index('/', 1)
+        r = root[:i] + '/' + root[i:] + '/'
+    elif kind == 'dd':
+        r = disk.abs[c] + '/..' * model.depth(c)
+    elif kind == 'ddrel':
+        cwd = disk.abs[model.parents[c]]
+        r = model.names[c] + '/..' * model.depth(c)
+    elif kind == 'ddbase':
+        r = root + '/../' + os.path.basename(root)
+    elif kind == 'sym':
+        r = disk.prefix_link()
+    else:
+        raise ValueError(spell)
+    top = r + '/' + TOP if r else TOP
+    target = (r + '/' + start_rel if r else start_rel) if start_rel else (r or None)
+    return Spelled(spell, top, target, cwd)
+
+
+def spellings_for(model, start, walker, deep_only=False, with_abs=False):
+    """Names of the root spellings one (tree, start, walker) is run under in family R."""
+    nodes = range(model.n)
+    out = ['abs'] if with_abs else []
+    out += ['bare'] + [f'cwd:{c}' for c in nodes] + ['slash'] + [f'dd:{c}' for c in nodes if c] \
+        + [f'ddrel:{c}' for c in nodes if c] + ['ddbase', 'sym']
+    if walker in CLI3 and isinstance(start, int) and start != 0:
+        out += [f'rel:{c}' for c in nodes if c]
+    if deep_only:
+        out = [sp for sp in out if ':' in sp and model.depth(int(sp.split(':')[1])) == model.n - 1]
+    return out
+
+
+def spell_class(spell):
+    return (spell or 'abs').split(':')[0]
+
+
+@contextlib.contextmanager
+def in_cwd(cwd):
+    if cwd is None:
+        yield
+        return
+    old = os.getcwd()
+    os.chdir(cwd)
+    try:
+        yield
+    finally:
+        os.chdir(old)
+
+
+def tree_rel(path, sp, disk):
+    """Path attribute of a loop / cross-device error -> relative to the tree root (diagnostics only)."""
+    if not isinstance(path, str):
+        return path
+    full = os.path.normpath(os.path.join(sp.cwd or '/', path))
+    for b in (disk.root, disk.link):
+        if full.startswith(b + '/'):
+            return full[len(b) + 1:]
+    return path
+
+
+def _lib_res(o, is_verify, sp, disk):
+    if o['kind'] == 'ret':
+        v = o['value']
+        if is_verify:
+            return ('ok', None) if v is True else ('fail',) if v is False else ('exc', f'returned {v!r}', None, None)
+        return ('ok', v)
+    path = o.get('path')
+    if o['exc'] in ('ManifestSymlinkLoop', 'ManifestCrossDevice'):
+        path = tree_rel(path, sp, disk)
+    if o.get('class') == 'internal' and o['exc'] not in ('BudgetExceeded', 'HardTimeout'):
+        return ('internal', o['exc'], o.get('where'), o.get('msg'))
+    return ('exc', o['exc'], o.get('errno'), path)
+
+
+def execute(walker, disk, sp, start_rel, allow_xdev, limit, reverse):
     """-> (res, calls, extra) with res = ('ok', value) | ('fail',) | ('exc', name, errno, path)"""
     kw = {} if allow_xdev else {'allow_xdev': False}
     handler_paths = []
     cli = None
     if walker == 'verify_strict':
         def fn():
-            return gem.loader(root, **kw).assert_directory_verifies(start_rel)
+            return grl.ManifestRecursiveLoader(sp.top, **kw).assert_directory_verifies(start_rel)
     elif walker == 'verify_keepgoing':
         def handler(e):
             handler_paths.append(e.path)
             return False
 
         def fn():
-            return gem.loader(root, **kw).assert_directory_verifies(start_rel, fail_handler=handler)
+            return grl.ManifestRecursiveLoader(sp.top, **kw).assert_directory_verifies(
+                start_rel, fail_handler=handler)
     elif walker == 'unregistered':
         def fn():
-            return gem.loader(root, **kw).load_unregistered_manifests(start_rel)
+            return grl.ManifestRecursiveLoader(sp.top, **kw).load_unregistered_manifests(start_rel)
     elif walker == 'update':
         def fn():
-            m = gem.loader(root, hashes=list(HASHES), **kw)
+            m = grl.ManifestRecursiveLoader(sp.top, hashes=list(HASHES), **kw)
             m.update_entries_for_directory(start_rel)
             m.save_manifests()
     elif walker == 'create':
-        cli = _argv('create', allow_xdev, root)
+        cli = _argv('create', allow_xdev, sp.target)
     elif walker == 'cli_verify':
-        cli = _argv('verify', allow_xdev, os.path.join(root, start_rel) if start_rel else root)
+        cli = _argv('verify', allow_xdev, sp.target)
     elif walker == 'cli_verify_k':
-        cli = _argv('verify', allow_xdev, os.path.join(root, start_rel) if start_rel else root)
+        cli = _argv('verify', allow_xdev, sp.target)
         cli.insert(1, '-k')
     elif walker == 'cli_update':
-        cli = _argv('update', allow_xdev, os.path.join(root, start_rel) if start_rel else root)
+        cli = _argv('update', allow_xdev, sp.target)
     else:
         raise ValueError(walker)
+    if (cli is None and sp.top is None):
+        raise HarnessError(f'spelling {sp.name} is for the CLI only')
     _ERRS.items = []
-    with budget(limit, reverse) as b:
-        o = gem.cli(cli) if cli is not None else gem.call(fn)
+    with in_cwd(sp.cwd):
+        with budget(limit, reverse) as b:
+            o = gem.cli(cli) if cli is not None else gem.call(fn)
     calls = b.calls
     errs, _ERRS.items = _ERRS.items, []
     if cli is not None:
@@ -796,25 +1044,46 @@ def execute(walker, root, start_rel, allow_xdev, limit, reverse):
         elif o['exit'] == 1 and errs:
             hard = [e for e in errs if e[0] not in ('ManifestMismatch', '<text>')]
             name, path = (hard or errs)[0]
-            if path is not None and name != 'ManifestMismatch' and path.startswith(root + '/'):
-                path = path[len(root) + 1:]
+            if name in ('ManifestSymlinkLoop', 'ManifestCrossDevice'):
+                path = tree_rel(path, sp, disk)
             res = ('exc', name, None, path)
         else:
             res = ('exc', f'exit{o["exit"]}', None, None)
-    elif o['kind'] == 'ret':
-        v = o['value']
-        if walker.startswith('verify'):
-            res = ('ok', None) if v is True else ('fail',) if v is False else ('exc', f'returned {v!r}', None, None)
-        else:
-            res = ('ok', v)
     else:
-        path = o.get('path')
-        if isinstance(path, str) and path.startswith(root + '/'):
-            path = path[len(root) + 1:]
-        res = ('exc', o['exc'], o.get('errno'), path)
-        if o.get('class') == 'internal' and o['exc'] not in ('BudgetExceeded', 'HardTimeout'):
-            res = ('internal', o['exc'], o.get('where'), o.get('msg'))
+        res = _lib_res(o, walker.startswith('verify'), sp, disk)
     return res, calls, {'handler_paths': handler_paths}
+
+
+def execute_history(hist, rels, disk, sp, allow_xdev, limit, reverse):
+    """Family U: several walks on ONE ManifestRecursiveLoader.  hist = [(op, start node)], rels = the
+    start paths.  -> ([res per call], scandir calls of the most expensive call)"""
+    kw = {} if allow_xdev else {'allow_xdev': False}
+    out = []
+    worst = 0
+    _ERRS.items = []
+    with in_cwd(sp.cwd):
+        o = gem.call(lambda: grl.ManifestRecursiveLoader(sp.top, hashes=list(HASHES), **kw))
+        if o['kind'] != 'ret':
+            return [_lib_res(o, False, sp, disk)] * len(hist), 0
+        m = o['value']
+        for (op, _st), rel in zip(hist, rels):
+            if op == 'scan':
+                def fn():
+                    return m.load_unregistered_manifests(rel)
+            elif op == 'update':
+                def fn():
+                    return m.update_entries_for_directory(rel)
+            elif op == 'verify':
+                def fn():
+                    return m.assert_directory_verifies(rel, fail_handler=lambda e: False)
+            else:
+                raise ValueError(op)
+            with budget(limit, reverse) as b:
+                o = gem.call(fn)
+            worst = max(worst, b.calls)
+            out.append(_lib_res(o, op == 'verify', sp, disk))
+    _ERRS.items = []
+    return out, worst
 
 
 def brief(res):
@@ -833,7 +1102,7 @@ class Case:
     """Everything that identifies one execution."""
 
     def __init__(self, fam, parents, links, hidden, ignores, ilabel, start, foreign, allow_xdev, walker, seed,
-                 pair=None, order=None):
+                 pair=None, order=None, spell=None, subm=None, hist=None):
         self.fam = fam
         self.parents = tuple(parents)
         self.links = tuple(links)
@@ -846,11 +1115,14 @@ class Case:
         self.walker = walker
         self.seed = seed
         self.pair = pair            # family P: {'at', 'items', 'loop', 'sib'}
-        self.order = order          # family P: 'sorted' | 'reversed'; None = by seed parity
+        self.order = order          # family P, U: 'sorted' | 'reversed'; None = by seed parity
+        self.spell = spell          # family R: root spelling (None = canonical absolute)
+        self.subm = subm            # family U: {'at', 'comp', 'reg'}
+        self.hist = [tuple(h) for h in hist] if hist else None      # family U, walker 'hist': [(op, start node)]
 
     def model(self):
         return Model(self.parents, self.links, names_for(self.seed, len(self.parents)), self.hidden, self.foreign,
-                     self.pair)
+                     self.pair, self.subm)
 
     def reverse(self):
         """scandir enumeration order of this execution"""
@@ -863,6 +1135,11 @@ class Case:
         if self.pair is not None:
             pr = self.pair
             d += ((pr['at'], tuple(pr['items']), pr['loop'], pr['sib']), self.order)
+        if self.spell is not None:
+            d += (('spell', self.spell),)
+        if self.subm is not None:
+            sm = self.subm
+            d += (('subm', sm['at'], sm['comp'], sm['reg']), self.order, self.hist)
         return d
 
     def to_json(self):
@@ -870,25 +1147,43 @@ class Case:
                 'links': [(-1 if x is None else x) for x in self.links], 'hidden': list(self.hidden),
                 'ignores': list(self.ignores), 'ilabel': self.ilabel, 'start': self.start,
                 'foreign': self.foreign, 'allow_xdev': self.allow_xdev, 'walker': self.walker,
-                'seed': self.seed, 'pair': self.pair, 'order': self.order}
+                'seed': self.seed, 'pair': self.pair, 'order': self.order, 'spell': self.spell,
+                'subm': self.subm, 'hist': [list(h) for h in self.hist] if self.hist else None}
 
     @classmethod
     def from_json(cls, j):
         return cls(j['fam'], [(None if p == -1 else p) for p in j['parents']],
                    [(None if x == -1 else x) for x in j['links']], j.get('hidden', ()), j.get('ignores', ()),
                    j.get('ilabel', '?'), j.get('start', 0), j.get('foreign'), j.get('allow_xdev', True),
-                   j['walker'], j.get('seed', 0), j.get('pair'), j.get('order'))
+                   j['walker'], j.get('seed', 0), j.get('pair'), j.get('order'), j.get('spell'),
+                   j.get('subm'), j.get('hist'))
 
     def text(self, model):
         return (f'{model.text()}  IGNORE {list(self.ignores)}  start={model.path_of(self.start)!r} '
                 f'allow_xdev={self.allow_xdev} walker={self.walker}'
-                + (f' listing={self.order}' if self.order else ''))
+                + (' history=' + ' ; '.join(f'{op}({model.path_of(st)!r})' for op, st in self.hist)
+                   if self.hist else '')
+                + (f' listing={self.order}' if self.order else '')
+                + (f' root-spelling={self.spell}' if self.spell else ''))
+
+
+UNLISTED = ('keep-going verify meets a foreign regular file that no loaded Manifest lists (unregistered sub-Manifest): '
+            'stray-file mismatch or cross-device error, the statement gives no precedence')
+
+
+def hist_call_open(case, model, op):
+    """Family U histories: reason why a call's outcome is left open, or None."""
+    if op == 'verify' and not model.subm['reg'] and case.foreign['kind'] == 'file' \
+            and under(model.rpath[case.foreign['at']], model.rpath[model.subm['at']]):
+        return UNLISTED
+    return None
 
 
 def expectation(case, model, ref):
     """-> (verdict, must_raise set, reason).  verdict in must|dontcare."""
     loops = bool(ref.loops)
-    xd = ref.xhits if case.walker != 'unregistered' else ref.xhit_dirs
+    scan = case.walker == 'unregistered' or bool(case.hist and case.hist[-1][0] == 'scan')
+    xd = ref.xhit_dirs if scan else ref.xhits
     must = set()
     if loops:
         must.add('ManifestSymlinkLoop')
@@ -898,7 +1193,9 @@ def expectation(case, model, ref):
         return 'dontcare', must, 'tree root re-entered below the start: top-level Manifest visible under an alias path'
     if ref.alias_manifests and not loops:
         return 'dontcare', must, 'tree root re-entered below the start: top-level Manifest visible under an alias path'
-    if case.walker == 'unregistered' and ref.xhits and not ref.xhit_dirs and not loops:
+    if case.hist and xd and hist_call_open(case, model, case.hist[-1][0]):
+        return 'dontcare', must, UNLISTED
+    if scan and ref.xhits and not ref.xhit_dirs and not loops:
         return 'dontcare', must, 'unregistered-Manifest scan meets only a foreign regular file'
     return 'must', must, None
 
@@ -920,6 +1217,82 @@ def check_pair_listing(case, model):
         raise HarnessError(f'family P entries {names} not adjacent / not in the intended order in {lst}')
 
 
+def u_manifests(case, model, listing, ign, disk):
+    """Family U: write the valid sub-Manifest (entries for the files of its sub-tree that the reference
+    reaches, device crossing allowed) and return the entries of the matching top-level Manifest for
+    the rest of the tree (+ the MANIFEST entry when the sub-Manifest is registered)."""
+    sm = model.subm
+    mdir = model.rpath[sm['at']]
+    sub = {p[len(mdir) + 1:]: d for p, d in listing.files.items() if under(p, mdir)}
+    rest = {p: d for p, d in listing.files.items() if not under(p, mdir)}
+    data = compress(rm.write(data_entries(sub)).encode('utf8'), sm['comp'])
+    disk.write_subm(model.subm_path(), data)
+    reg = [rm.file_entry('MANIFEST', model.subm_path(), data, HASHES)] if sm['reg'] else []
+    return data_entries(rest), reg
+
+
+def termination_violation(res, calls, limit, ref, viol, got):
+    exc = res[1] if res[0] == 'exc' else None
+    if exc == 'BudgetExceeded':
+        return viol({'check': 'does_not_terminate', 'how': 'scandir_budget'},
+                    f'walk did not end within {limit} os.scandir calls (reference walk: {len(ref.visits)} directories, '
+                    f'{"loop expected" if ref.loops else "no loop"})')
+    if exc == 'HardTimeout':
+        return viol({'check': 'does_not_terminate', 'how': 'alarm'}, f'execution still running after {ALARM_S} s')
+    if res[0] == 'exc' and res[2] in (errno.ELOOP, errno.ENAMETOOLONG):
+        return viol({'check': 'does_not_terminate', 'how': 'stopped_by_kernel_' + errno.errorcode[res[2]]},
+                    f'walk was only stopped by the kernel ({got}) after {calls} os.scandir calls')
+    if res[0] == 'internal':
+        return viol({'check': 'internal_error', 'exc': res[1], 'where': res[2]},
+                    f'{res[1]} escaped from {res[2]}: {res[3]}')
+    return None
+
+
+def judge_history(case, model, ignores, results, calls, limit, viol):
+    """Family U, several walks on one loader.  Every call is a walk of its own: with crossing
+    disallowed it must raise ManifestCrossDevice iff the reference walk from ITS start meets a
+    non-IGNOREd foreign object, whatever the loader did before.  -> (violation | None, label)"""
+    failed_before = False
+    labels = []
+    v = None
+    ops = ','.join(op for op, _st in case.hist)
+    for i, ((op, st), res) in enumerate(zip(case.hist, results)):
+        ref = ref_walk(model, st, ignores, case.allow_xdev)
+        got = brief(res)
+        labels.append(got)
+        exc = res[1] if res[0] == 'exc' else None
+        xd = ref.xhit_dirs if op == 'scan' else ref.xhits
+        where = f'call {i + 1} ({op} of {model.path_of(st)!r})'
+        w = termination_violation(res, calls, limit, ref, viol, got)
+        if w is None and xd:
+            if exc == 'ManifestCrossDevice' or hist_call_open(case, model, op):
+                pass
+            elif res[0] == 'exc' and failed_before:
+                pass            # a loader that refuses further work after a failed call: not this property's subject
+            else:
+                w = viol({'check': 'xdev_not_reported', 'got': got, 'foreign': case.foreign['kind'],
+                          'sub_manifest': 'registered' if model.subm['reg'] else 'unregistered', 'history': ops},
+                         f'{where}{" (an earlier call on this loader failed)" if failed_before else ""}: reference: foreign object at {ref.xhits[:3]} with crossing disallowed => '
+                         f'ManifestCrossDevice; gemato: {got}')
+        elif w is None and not (op == 'scan' and ref.xhits):
+            if exc == 'ManifestCrossDevice':
+                w = viol({'check': 'false_xdev', 'history': ops},
+                         f'{where}: reference: nothing foreign below this start (or crossing allowed); gemato: {got} '
+                         f'for {res[3]!r}')
+            elif exc == 'ManifestSymlinkLoop':
+                w = viol({'check': 'false_loop', 'shape': 'plain', 'history': ops},
+                         f'{where}: reference: no loop; gemato: {got} for {res[3]!r}')
+            elif res[0] == 'exc' and not failed_before:
+                w = viol({'check': 'rejected_loop_free_tree', 'got': got, 'history': ops},
+                         f'{where}: reference: walk ends without loop / cross-device error; gemato: {got}')
+            elif res[0] == 'fail' and model.subm['reg'] and not failed_before:
+                w = viol({'check': 'rejected_loop_free_tree', 'got': got, 'history': ops},
+                         f'{where}: the tree matches its Manifests, keep-going verify returned False')
+        v = v or w
+        failed_before = failed_before or res[0] not in ('ok', 'fail')
+    return v, ' ; '.join(labels)
+
+
 def check_case(case, disk, stats=None, crosscheck=True):
     """Materialise the links of ``case`` on ``disk``, run its walker, judge.  -> (violation|None, info)"""
     model = case.model()
@@ -936,61 +1309,79 @@ def check_case(case, disk, stats=None, crosscheck=True):
     disk.apply(model)
     if case.pair is not None:
         check_pair_listing(case, model)
-    if crosscheck and not (case.foreign and case.foreign['kind'] == 'ino'):
-        dk = disk_walk(disk.root, start_rel, ignores, case.allow_xdev)
-        if dk.key() != ref.key() or any(dk.files[p] != ref.files[p] for p in ref.files):
-            raise HarnessError(f'model and materialised tree disagree for {case.text(model)}: '
-                               f'{ref.key()} vs {dk.key()}')
+
+    def cross():
+        if crosscheck and not (case.foreign and case.foreign['kind'] == 'ino'):
+            dk = disk_walk(disk.root, start_rel, ignores, case.allow_xdev)
+            if dk.key() != ref.key() or any(dk.files[p] != ref.files[p] for p in ref.files):
+                raise HarnessError(f'model and materialised tree disagree for {case.text(model)}: '
+                                   f'{ref.key()} vs {dk.key()}')
+
     verdict, must, reason = expectation(case, model, ref)
     walker = case.walker
+    sp = spelled(case.spell, disk, model, start, start_rel)
 
-    # ---- Manifest the walker starts from
+    # ---- Manifest(s) the walker starts from
     ign = ignore_entries(ignores)
     outside = []
-    if walker in ('verify_strict', 'verify_keepgoing', 'unregistered', 'cli_verify', 'cli_verify_k'):
-        before = rm.write(ign + data_entries(listing.files))
+    reg = []
+    if case.subm is not None:
+        if start != 0:
+            raise HarnessError('family U starts at the tree root')
+        rest_entries, reg = u_manifests(case, model, listing, ign, disk)
+    else:
+        rest_entries = data_entries(listing.files)
+    if walker in ('verify_strict', 'verify_keepgoing', 'unregistered', 'cli_verify', 'cli_verify_k', 'hist'):
+        before = rm.write(ign + rest_entries + reg)
         disk.write_manifest(before)
     elif walker in ('update', 'cli_update'):
         stale = stale_entries(model, start)
         outside = [e for e in stale if not under(e[1], start_rel)]
-        before = rm.write(ign + stale)
+        before = rm.write(ign + stale + reg)
         disk.write_manifest(before)
     else:
         before = None
         disk.remove_manifest()
+    cross()         # (after the Manifests are in place: alias paths of the top-level Manifest, sub-Manifests)
 
     if case.foreign and case.foreign['kind'] == 'ino':
         fst = os.stat(os.path.join(disk.other, 'D'))
         PROXY.fake = ((fst.st_dev, fst.st_ino), os.stat(disk.abs[case.foreign['at']]).st_ino)
+    results = None
     try:
-        res, calls, extra = execute(walker, disk.root, start_rel, case.allow_xdev, limit, case.reverse())
+        if walker == 'hist':
+            results, calls = execute_history(case.hist, [model.path_of(st) for _op, st in case.hist], disk, sp,
+                                             case.allow_xdev, limit, case.reverse())
+            res, extra = results[-1], {'handler_paths': []}
+        else:
+            res, calls, extra = execute(walker, disk, sp, start_rel, case.allow_xdev, limit, case.reverse())
     finally:
         PROXY.fake = None
     got = brief(res)
     after = disk.read_manifest()
     info = {'ref': ref, 'verdict': verdict, 'must': must, 'got': got, 'calls': calls, 'limit': limit,
-            'model': model}
+            'model': model, 'spelled': sp, 'root': disk.root}
 
     def viol(sig, msg, with_walker=True):
         if with_walker:
             sig = dict(sig, walker=walker)
+        if case.spell is not None:
+            sig = dict(sig, root_spelling=spell_class(case.spell))
         return {'sig': sig, 'case': case.to_json(), 'message': f'{msg} :: {case.text(model)}'}
 
-    v = None
+    if results is not None:
+        v, got = judge_history(case, model, ignores, results, calls, limit, viol)
+        info['got'] = got
+        if v is None and after != before:
+            v = viol({'check': 'manifest_written_despite_error', 'got': got},
+                     'the Manifest on disk changed although nothing was saved')
+        return _account(case, stats, v, info, verdict, reason, must, walker, got, calls, limit, None)
+
     exc = res[1] if res[0] == 'exc' else None
     # ---- termination (judged always, DONT_CARE included)
-    if exc == 'BudgetExceeded':
-        v = viol({'check': 'does_not_terminate', 'how': 'scandir_budget'},
-                 f'walk did not end within {limit} os.scandir calls (reference walk: {len(ref.visits)} directories, '
-                 f'{"loop expected" if ref.loops else "no loop"})')
-    elif exc == 'HardTimeout':
-        v = viol({'check': 'does_not_terminate', 'how': 'alarm'}, f'execution still running after {ALARM_S} s')
-    elif res[0] == 'exc' and res[2] in (errno.ELOOP, errno.ENAMETOOLONG):
-        v = viol({'check': 'does_not_terminate', 'how': 'stopped_by_kernel_' + errno.errorcode[res[2]]},
-                 f'walk was only stopped by the kernel ({got}) after {calls} os.scandir calls')
-    elif res[0] == 'internal':
-        v = viol({'check': 'internal_error', 'exc': res[1], 'where': res[2]},
-                 f'{res[1]} escaped from {res[2]}: {res[3]}')
+    v = termination_violation(res, calls, limit, ref, viol, got)
+    if v is not None:
+        pass
     elif verdict == 'dontcare':
         pass
     elif must:
@@ -1024,7 +1415,10 @@ def check_case(case, disk, stats=None, crosscheck=True):
                          f'reference: loop at {lp} outside IGNORE => ManifestSymlinkLoop; gemato: {got}{where}')
             elif 'ManifestSymlinkLoop' not in must:
                 kind = case.foreign['kind'] if case.foreign else 'pair_link' if case.pair else '?'
-                v = viol({'check': 'xdev_not_reported', 'got': got, 'foreign': kind},
+                sig = {'check': 'xdev_not_reported', 'got': got, 'foreign': kind}
+                if case.subm is not None:
+                    sig['sub_manifest'] = 'registered' if case.subm['reg'] else 'unregistered'
+                v = viol(sig,
                          f'reference: foreign object at {ref.xhits[:3]} with crossing disallowed => ManifestCrossDevice; '
                          f'gemato: {got}{where}')
             else:
@@ -1045,7 +1439,7 @@ def check_case(case, disk, stats=None, crosscheck=True):
             v = viol({'check': 'rejected_loop_free_tree', 'got': got},
                      f'reference: walk ends without loop, tree matches its Manifest; gemato: {got}'
                      + (f' for {res[3]!r}' if exc and res[3] else ''))
-        elif walker == 'unregistered' and res[1] != []:
+        elif walker == 'unregistered' and case.subm is None and res[1] != []:
             v = viol({'check': 'unregistered_scan_reports_manifest'},
                      f'no sub-Manifest exists, scan returned {res[1]!r}')
         elif walker == 'verify_keepgoing' and extra['handler_paths']:
@@ -1053,10 +1447,13 @@ def check_case(case, disk, stats=None, crosscheck=True):
                      f'handler called for {extra["handler_paths"][:3]}')
         elif walker in ('update', 'create', 'cli_update'):
             v = judge_written(case, model, ref, disk, after, ign, outside, start_rel, limit, viol, stats)
+    return _account(case, stats, v, info, verdict, reason, must, walker, got, calls, limit, exc)
 
+
+def _account(case, stats, v, info, verdict, reason, must, walker, got, calls, limit, exc):
     if stats is not None:
         stats.evaluations += 1
-        stats.transitions += 1
+        stats.transitions += len(case.hist) if case.hist else 1
         c = stats.counters
         if verdict == 'must':
             stats.compared += 1
@@ -1067,7 +1464,7 @@ def check_case(case, disk, stats=None, crosscheck=True):
         stats.outcomes[f'{walker}/{cls}/{got}'] += 1
         use = calls * 100 // limit
         c['budget_use_' + ('lt10' if use < 10 else 'lt25' if use < 25 else 'lt50' if use < 50 else 'ge50')] += 1
-        if exc == 'BudgetExceeded':
+        if exc == 'BudgetExceeded' or 'BudgetExceeded' in got:
             c['budget_exceeded'] += 1
         if v:
             stats.violation(v['sig'], v['case'], v['message'])
@@ -1082,6 +1479,20 @@ def judge_written(case, model, ref, disk, after, ign, outside, start_rel, limit,
     st, ents = rm.parse(after)
     if st != 'ok':
         return viol({'check': 'written_manifest_unparsable', 'why': str(ents)}, f'reference parser: {st} {ents}')
+    if model.subm is not None:
+        # family U: the union of the two Manifests, each path in the namespace of the tree root; how the
+        # sub-Manifest is registered (its MANIFEST entry) is left to the fresh verify below
+        mdir = model.rpath[model.subm['at']]
+        raw = disk.read_subm(model.subm_path())
+        try:
+            st2, sub = rm.parse(decompress(raw, model.subm['comp']).decode('utf8')) if raw is not None else ('gone', ())
+        except Exception as e:      # noqa: BLE001 - a damaged compressed stream is a verdict, not a harness error
+            st2, sub = f'undecodable ({type(e).__name__})', ()
+        if st2 != 'ok':
+            return viol({'check': 'written_manifest_unparsable', 'why': 'sub-Manifest ' + st2},
+                        f'sub-Manifest {model.subm_path()} after the update: {st2}')
+        ents = [e for e in ents if e[0] != 'MANIFEST'] + [
+            (e[0], _j(mdir, e[1])) + tuple(e[2:]) for e in sub if e[0] not in ('MANIFEST', 'TIMESTAMP')]
     want = sorted(ign + outside + data_entries(ref.files), key=repr)
     have = sorted((e for e in ents if e[0] != 'TIMESTAMP'), key=repr)
     if have != want:
@@ -1226,9 +1637,122 @@ def pair_runs(have_other=True):
                         yield a, b, order, axd, walker
 
 
+def r_parts(tier):
+    """-> [(n, shape index, part, sub, deep_only)] of family R; part L/S: sub = link-set prefix, X: holder"""
+    mx = MAX_N[tier]
+    out = []
+    for n in range(1, mx['R'] + 2):
+        deep = n > mx['R']
+        for si, parents in enumerate(shapes(n)):
+            if deep and not any(Model(parents, (None,) * n, [''] * n).depth(c) == n - 1 for c in range(n)):
+                continue
+            k = 0 if n <= 1 else 1
+            for part in ('L', 'S'):
+                if part == 'S' and n < 2:
+                    continue
+                for prefix in itertools.product([None] + list(range(n)), repeat=k):
+                    out.append((n, si, part, tuple(prefix), deep))
+            if n <= mx['RX']:
+                for at in range(n):
+                    out.append((n, si, 'X', at, False))
+    return out
+
+
+def r_runs(tier, n, parents, part, sub, deep, names=None):
+    """Everything family R runs in one part: -> (links, ignores, ilabel, start, foreign, allow_xdev, walker, spelling)"""
+    names = names or [''] + [str(i) for i in range(1, n)]
+    if part == 'X':
+        foreigns = [{'at': sub, 'kind': k} for k in RX_KINDS[tier]]
+        lsets = [(None,) * n]
+    else:
+        foreigns = [None]
+        lsets = list(linksets(n, sub))
+        if deep:
+            lsets = [ls for ls in lsets if sum(1 for x in ls if x is not None) <= DEEP_LINKS[tier]]
+    for foreign in foreigns:
+        for links in lsets:
+            base = Model(parents, links, names, (), foreign)
+            starts = list(range(1, n)) if part == 'S' else [0]
+            if part == 'X' and foreign['kind'] != 'file':
+                starts.append('X')
+            for start in starts:
+                variants = [('none', (), ())] if start == 'X' else \
+                    ignore_variants(base, 'S' if part == 'S' else 'R', start, tier)
+                for ilabel, ignores, _hidden in variants:
+                    for axd in ((True, False) if part == 'X' else (True,)):
+                        walkers = WALKERS_XS if start == 'X' else WALKERS_X if part == 'X' else \
+                            WALKERS_RL if part == 'L' else WALKERS_RS
+                        for walker in walkers:
+                            if walker == 'create' and ignores:
+                                continue
+                            for spell in spellings_for(base, start, walker, deep, walker in CLI3 and part != 'X'):
+                                yield links, ignores, ilabel, start, foreign, axd, walker, spell
+
+
+def u_placements(tier):
+    """-> [(n, shape index, holder of the foreign link, directory of the sub-Manifest)]"""
+    return [(n, si, at, m) for n in range(2, MAX_N[tier]['U'] + 1) for si, _p in enumerate(shapes(n))
+            for at in range(n) for m in range(1, n)]
+
+
+def u_runs(tier, n):
+    """Everything family U runs in one placement:
+    -> (foreign kind, compression, registered, listing order, IGNORE label, allow_xdev, walker, history)"""
+    for kind in U_KINDS:
+        for comp in SUBM_COMPS:
+            for order in PAIR_ORDERS:
+                for ilabel in ('none', 'x'):
+                    for axd in (False, True):
+                        for walker, reg in U_SINGLES:
+                            if walker == 'create' and ilabel != 'none':
+                                continue
+                            yield kind, comp, reg, order, ilabel, axd, walker, None
+                if n > MAX_N[tier]['UH'] or (tier == 'quick' and n > 2 and comp is not None):
+                    continue
+                for reg in (False, True):
+                    for op1 in HIST_OPS:
+                        for s1 in range(n):
+                            for op2 in HIST_OPS:
+                                yield kind, comp, reg, order, 'none', False, 'hist', ((op1, s1), (op2, 0))
+
+
+def u_order(case, model):
+    """Which of {sub-Manifest, foreign object} a top-down walk under this case's listing order meets
+    first (a directory's files are looked at when the directory is visited)."""
+    seen = {}
+    tick = [0]
+
+    def visit(node):
+        tick[0] += 1
+        t = tick[0]
+        ch = model.children(node)
+        for _name, kind, _p in ch:
+            if kind == 'subm':
+                seen.setdefault('subm', t)
+            elif kind == 'xfile':
+                seen.setdefault('foreign', t)
+        for _name, _kind, payload in sorted((x for x in ch if x[1] == 'dir'), key=lambda x: x[0],
+                                            reverse=case.reverse()):
+            if payload == 'X':
+                tick[0] += 1
+                seen.setdefault('foreign', tick[0])
+            else:
+                visit(payload)
+
+    visit(0)
+    a, b = seen.get('subm'), seen.get('foreign')
+    if a is None or b is None:
+        return 'n/a'
+    return 'same_dir' if a == b else 'subm_first' if a < b else 'foreign_first'
+
+
 def shards(tier, seed):
     out = []
     mx = MAX_N[tier]
+    for n, si, part, sub, deep in r_parts(tier):
+        out.append(('R', n, si, (part, sub, deep), sum(1 for _ in r_runs(tier, n, shapes(n)[si], part, sub, deep)) // 8))
+    for n, si, at, m in u_placements(tier):
+        out.append(('U', n, si, (at, m), sum(1 for _ in u_runs(tier, n)) // 6))
     per_placement = sum(1 for _ in pair_runs())
     for n, si, h, loop in pair_placements(tier):
         out.append(('P', n, si, (h, loop), per_placement // 5))
@@ -1278,9 +1802,38 @@ def run_shard(spec, tier, seed, scratch):
             if other is None:
                 stats.notes.append('family P: pairs with a foreign link skipped (no second filesystem)')
                 stats.counters['xdev_skipped'] += 1
+        if fam == 'U' or (fam == 'R' and sub[0] == 'X'):
+            other = second_fs(scratch)
+            if other is None:
+                stats.notes.append(f'family {fam}: foreign placements skipped (no second filesystem)')
+                stats.counters['xdev_skipped'] += 1
+                return stats
         disk = Disk(scratch, parents, names, seed, other)
         try:
-            if fam == 'P':
+            if fam == 'R':
+                part, rsub, deep = sub
+                for links, ignores, ilabel, start, foreign, axd, walker, spell in r_runs(
+                        tier, n, parents, part, rsub, deep, names):
+                    case = Case(fam, parents, links, (), ignores, ilabel, start, foreign, axd, walker, seed,
+                                spell=spell)
+                    serial += 1
+                    v, info = check_case(case, disk, stats, crosscheck=(serial % cross_every == 0))
+                    book(stats, case, info, v)
+                lsets = ()
+            elif fam == 'U':
+                at, m = sub
+                nolinks = (None,) * n
+                for kind, comp, reg, order, ilabel, axd, walker, hist in u_runs(tier, n):
+                    foreign = {'at': at, 'kind': kind}
+                    subm = {'at': m, 'comp': comp, 'reg': reg}
+                    ignores = (_j(Model(parents, nolinks, names).rpath[at], 'x'),) if ilabel == 'x' else ()
+                    case = Case(fam, parents, nolinks, (), ignores, ilabel, 0, foreign, axd, walker, seed,
+                                order=order, subm=subm, hist=hist)
+                    serial += 1
+                    v, info = check_case(case, disk, stats, crosscheck=(serial % cross_every == 0))
+                    book(stats, case, info, v)
+                lsets = ()
+            elif fam == 'P':
                 holder, loop = sub
                 nolinks = (None,) * n
                 for a, b, order, axd, walker in pair_runs(other is not None):
@@ -1345,6 +1898,12 @@ def book(stats, case, info, v):
     if case.pair is not None:
         book_pair(stats, case, info)
         return
+    c['fam_got/%s/%s' % (case.fam, info['got'] if case.hist is None else 'hist')] += 1
+    if case.subm is not None:
+        book_u(stats, case, info)
+        return
+    if case.fam == 'R':
+        book_spell(stats, case, info)
     if info['verdict'] == 'must':
         c[f'{w}/{"loop" if ref.loops else "noloop"}'] += 1
         if ref.xhits:
@@ -1377,6 +1936,70 @@ def book(stats, case, info, v):
                                   ref_walk(model, case.start, set(case.ignores), True).files)),
                               'expected': sorted(info['must']) or 'terminates, no loop/cross-device error, files verify',
                               'gemato': info['got'], 'scandir_calls': info['calls'], 'budget': info['limit']})
+
+
+def _no_scratch(x, disk_root):
+    base = os.path.dirname(disk_root)
+    return x.replace(base, '<scratch>') if isinstance(x, str) else x
+
+
+def book_spell(stats, case, info):
+    """Family R vacuity bookkeeping: per spelling class x {library, CLI} x reference verdict."""
+    ref = info['ref']
+    c = stats.counters
+    c['family_R_executions'] += 1
+    if info['verdict'] != 'must':
+        return
+    cls = spell_class(case.spell)
+    how = 'cli' if case.walker in CLI_WALKERS else 'lib'
+    kind = 'xdev' if ref.xhits and not case.allow_xdev else 'loop' if ref.loops else 'noloop'
+    c[f'spell/{cls}/{how}/{kind}'] += 1
+    c[f'spell_walker/{case.walker}/{kind}'] += 1
+    if case.start != 0:
+        c[f'spell_substart/{how}/{kind}'] += 1
+    if (len(stats.samples) < 1 and ref.loops and cls in ('ddrel', 'cwd', 'rel') and case.walker in ('update', 'cli_update')
+            and case.start != 0):
+        sp = info['spelled']
+        stats.sample({'case': case.text(info['model']), 'cwd': _no_scratch(sp.cwd, info['root']),
+                      'top_level_Manifest_given_to_loader': _no_scratch(sp.top, info['root']),
+                      'cli_path_argument': _no_scratch(sp.target, info['root']),
+                      'loop_closing_paths': [r for r, _ in ref.loops],
+                      'expected': sorted(info['must']), 'gemato': info['got']})
+
+
+def book_u(stats, case, info):
+    """Family U vacuity bookkeeping."""
+    ref, model = info['ref'], info['model']
+    c = stats.counters
+    c['family_U_executions'] += 1
+    if info['verdict'] != 'must':
+        return
+    w = case.walker
+    cls = 'xdev' if info['must'] else 'pass'
+    sm = case.subm
+    if case.hist is not None:
+        ops = ','.join(op for op, _st in case.hist)
+        c[f'U_hist/{ops}/{cls}'] += 1
+        first = ref_walk(model, case.hist[0][1], set(case.ignores), case.allow_xdev)
+        if cls == 'xdev' and not first.xhits:
+            c['U_hist_first_call_clean_then_must_raise'] += 1
+            if first.subms:
+                c['U_hist_first_call_loads_sub_manifest_only'] += 1
+    else:
+        c[f'U/{w}/{cls}'] += 1
+    if cls == 'xdev':
+        c[f'U_order/{u_order(case, model)}/{w}'] += 1
+        c[f'U_subm/{"registered" if sm["reg"] else "unregistered"}/{sm["comp"] or "plain"}/{w}'] += 1
+        rel = 'same' if sm['at'] == case.foreign['at'] else \
+            'subm_above_foreign' if model.is_ancestor(sm['at'], case.foreign['at']) else \
+            'foreign_above_subm' if model.is_ancestor(case.foreign['at'], sm['at']) else 'apart'
+        c[f'U_position/{rel}'] += 1
+    if len(stats.samples) < 1 and cls == 'xdev' and w == 'update' and not sm['reg'] \
+            and u_order(case, model) == 'subm_first':
+        stats.sample({'case': case.text(model), 'reference_walk': [r or '.' for r, _ in ref.visits],
+                      'sub_manifests_met': ref.subms, 'foreign_hits': ref.xhits,
+                      'met_first_in_a_top_down_walk': 'sub-Manifest',
+                      'expected': sorted(info['must']), 'gemato': info['got']})
 
 
 def book_pair(stats, case, info):
@@ -1517,6 +2140,58 @@ def finish(total, tier):
     #  violations sets total.capped, and the framework then marks the evidence as not exhaustive)
     if c.get('family_P_executions', 0) != want_p and not total.capped:
         errs.append(f'family P ran {c.get("family_P_executions", 0)} executions, re-enumeration gives {want_p}')
+    # ---- family R: every spelling class, through the library and through the CLI, with a loop expected, with
+    #      none, and with a foreign object; sub-path starts; more than one observed outcome
+    for cls in SPELL_CLASSES:
+        for how in (('cli',) if cls == 'rel' else ('lib', 'cli')):
+            for kind in ('loop', 'noloop') + (('xdev',) if have_other and cls != 'rel' else ()):
+                if not c.get(f'spell/{cls}/{how}/{kind}'):
+                    errs.append(f'vacuity: family R: spelling {cls!r} via {how}: no case with reference outcome {kind!r}')
+    for w in WALKERS_X:
+        for kind in ('loop', 'noloop') + (('xdev',) if have_other else ()):
+            if not c.get(f'spell_walker/{w}/{kind}'):
+                errs.append(f'vacuity: family R: walker {w}: no spelt case with reference outcome {kind!r}')
+    for how in ('lib', 'cli'):
+        for kind in ('loop', 'noloop'):
+            if not c.get(f'spell_substart/{how}/{kind}'):
+                errs.append(f'vacuity: family R: no sub-path start via {how} with reference outcome {kind!r}')
+    want_r = sum(1 for n, si, part, sub, deep in r_parts(tier) if have_other or part != 'X'
+                 for _ in r_runs(tier, n, shapes(n)[si], part, sub, deep))
+    if c.get('family_R_executions', 0) != want_r and not total.capped:
+        errs.append(f'family R ran {c.get("family_R_executions", 0)} executions, re-enumeration gives {want_r}')
+    # ---- family U
+    if have_other:
+        for w in sorted({w for w, _reg in U_SINGLES}):
+            for kind in ('xdev', 'pass'):
+                if not c.get(f'U/{w}/{kind}'):
+                    errs.append(f'vacuity: family U: walker {w}: no case with reference outcome {kind!r}')
+            orders = ('subm_first', 'foreign_first') + (('same_dir',) if w != 'unregistered' else ())
+            for o in orders:
+                if not c.get(f'U_order/{o}/{w}'):
+                    errs.append(f'vacuity: family U: walker {w}: no must-raise case where a top-down walk meets {o}')
+        for w, isreg in U_SINGLES:
+            reg = 'registered' if isreg else 'unregistered'
+            for comp in ('plain', 'gz'):
+                if not c.get(f'U_subm/{reg}/{comp}/{w}'):
+                    errs.append(f'vacuity: family U: walker {w}: no must-raise case with a {reg} {comp} sub-Manifest')
+        for o1 in HIST_OPS:
+            for o2 in HIST_OPS:
+                if not c.get(f'U_hist/{o1},{o2}/xdev'):
+                    errs.append(f'vacuity: family U: no history {o1},{o2} whose last call must raise')
+        for k, what in {'U_hist_first_call_clean_then_must_raise': 'a first call that meets nothing foreign',
+                        'U_hist_first_call_loads_sub_manifest_only': 'a first call that only loads the sub-Manifest',
+                        'U_position/same': 'sub-Manifest in the directory holding the foreign link',
+                        'U_position/subm_above_foreign': 'sub-Manifest above the foreign link',
+                        'U_position/foreign_above_subm': 'foreign link above the sub-Manifest',
+                        'U_position/apart': 'sub-Manifest and foreign link in unrelated directories'}.items():
+            if not c.get(k):
+                errs.append(f'vacuity: family U: never seen: {what}')
+        want_u = sum(1 for n, _si, _at, _m in u_placements(tier) for _ in u_runs(tier, n))
+        if c.get('family_U_executions', 0) != want_u and not total.capped:
+            errs.append(f'family U ran {c.get("family_U_executions", 0)} executions, re-enumeration gives {want_u}')
+    for fam in ('R', 'U'):
+        if len([k for k in c if k.startswith(f'fam_got/{fam}/')]) < 2 and (fam == 'R' or have_other):
+            errs.append(f'vacuity: family {fam} produced fewer than two outcome classes')
     if c.get('budget_exceeded'):
         errs.append(f'the os.scandir budget was exhausted {c["budget_exceeded"]} times: a walker that does not '
                     'terminate (see the violations) or a budget that is too small')
@@ -1544,6 +2219,26 @@ def extra_evidence(total, tier):
             + '  => IGNORE +p, IGNORE 0q; expected: every walker ends without loop error under both listing orders',
             'adjacent_prunable_pairs_per_walker': {
                 w: sum(v for k, v in c.items() if k.startswith(f'pair/{w}/')) for w in WALKERS_L},
+        },
+        'family_R': {
+            'executions': c.get('family_R_executions', 0),
+            'spellings_of_a_3_directory_chain': spellings_for(
+                Model((None, 0, 1), (None,) * 3, names_for(0, 3)), 1, 'cli_update', False, True),
+            'per_spelling_class/how/reference_outcome': {
+                k[6:]: v for k, v in sorted(c.items()) if k.startswith('spell/')},
+            'sub_path_starts': {k[15:]: v for k, v in sorted(c.items()) if k.startswith('spell_substart/')},
+            'parts (n, shape, part, sub, deep-only)': len(r_parts(tier)),
+        },
+        'family_U': {
+            'executions': c.get('family_U_executions', 0),
+            'placements (n, shape, foreign holder, sub-Manifest directory)': len(u_placements(tier)),
+            'single_walkers (walker, sub-Manifest registered)': [list(x) for x in U_SINGLES],
+            'histories': {k[7:]: v for k, v in sorted(c.items()) if k.startswith('U_hist/')},
+            'first_call_meets_nothing_foreign_then_must_raise': c.get('U_hist_first_call_clean_then_must_raise', 0),
+            'met_first_by_a_top_down_walk (must-raise cases)': {
+                o: sum(v for k, v in c.items() if k.startswith(f'U_order/{o}/'))
+                for o in ('subm_first', 'foreign_first', 'same_dir')},
+            'positions': {k[11:]: v for k, v in sorted(c.items()) if k.startswith('U_position/')},
         },
         'budget': '20*n*n+50 os.scandir calls per execution; use histogram: ' + ', '.join(
             f'{k[11:]}={v}' for k, v in sorted(c.items()) if k.startswith('budget_use_')),
